@@ -232,9 +232,8 @@ func (c *Context) Mul(d, x, y *Decimal) (Condition, error) {
 	if res.SystemOverflow() || res.SystemUnderflow() {
 		// The exponent is outside of the package limits and was not stored. d
 		// still has its previous exponent, which has nothing to do with the
-		// product: the result is not representable.
-		d.Set(decimalNaN)
-		return c.goError(res)
+		// product and must not be rounded.
+		return c.goError(d.exponentLimit(c, res))
 	}
 	res |= c.round(d, d)
 	return c.goError(res)
@@ -311,7 +310,7 @@ func (c *Context) Quo(d, x, y *Decimal) (Condition, error) {
 		d.Set(decimalZero)
 		d.Negative = neg
 		res |= d.setExponent(c, unknownNumDigits, res, shift)
-		return c.goError(res)
+		return c.goError(d.exponentLimit(c, res))
 	}
 
 	var dividend, divisor BigInt
@@ -391,9 +390,8 @@ func (c *Context) Quo(d, x, y *Decimal) (Condition, error) {
 	if res.SystemOverflow() || res.SystemUnderflow() {
 		// The exponent is outside of the package limits and was not stored. d
 		// still has its previous exponent, which has nothing to do with the
-		// quotient: the result is not representable.
-		d.Set(decimalNaN)
-		return c.goError(res)
+		// quotient.
+		return c.goError(d.exponentLimit(c, res))
 	}
 	return c.goError(res)
 }
